@@ -2,6 +2,7 @@
   C04 — Population scatter is marginalised by an unbiased N-draw mean of the likelihood.
 -/
 import HierArc.Proofs.LensDet
+import HierArc.Proofs.LensDeclared
 import HierArc.Gen.Tables
 import Mathlib.Probability.Moments.Variance
 import Mathlib.Probability.IdentDistrib
@@ -195,6 +196,58 @@ theorem sharp_deterministic {cfg : LensCfg ℝ} {hy : Hyper ℝ} {ddt dd dLum : 
         repeat (first | (split <;> try rfl) | rfl)
         all_goals simp_all
   · rw [hp1, hp2, ekp]
+
+/-! ### C'. every draw comes from a declared population of the lens -/
+
+/-- **draws from the declared populations.**  Whatever the random stream, the recursion depth and the number of
+    re-draws of truncated populations: every `np.random.normal(loc, scale)` request made during the evaluations of
+    `hyper_param_likelihood` (one when sharp, N otherwise) has `(loc, scale)` among the declared populations of
+    *this* lens — its own lambda population (IFU one when so flagged), gamma_in, log_m2l, global slope, source
+    magnitude, anisotropy and assigned line-of-sight populations.  In particular a re-draw never switches to another
+    population's spread. -/
+theorem draws_from_declared (mk : ℝ → ℝ → ℝ → ℝ) (cfg : LensCfg ℝ) (hy : Hyper ℝ) (ddt dd dLum : ℝ)
+    (beta : Option ℝ) (ext : Ext ℝ) (fuel : ℕ) (sharp : Bool) (N : ℕ) (s s' : St ℝ) (outs : List (SingleOut ℝ))
+    (h : hyperEvals (singlePre mk cfg hy ddt dd dLum beta ext fuel) sharp N s = .ok (outs, s'))
+    (hs : s.reqs = []) :
+    ∀ r ∈ s'.reqs, r ∈ declared cfg hy := by
+  intro r hr
+  rcases hyperEvals_reqs (singlePre_reqs mk cfg hy ddt dd dLum beta ext fuel) sharp N s outs s' h r hr with h' | h'
+  · rw [hs] at h'; simp at h'
+  · exact h'
+
+/-- an IFU-flagged lens never draws lambda with the sample-wide scatter (nor the other way round): its lambda
+    population is `(lambda_ifu + α·x + β·y, lambda_ifu_sigma)` -/
+theorem declared_lambda_ifu (cfg : LensCfg ℝ) (hy : Hyper ℝ) (h : cfg.dist.mstIfu = true) :
+    (declared cfg hy).head? =
+      some (getD hy.lens "lambda_ifu" 1.0 + getD hy.lens "alpha_lambda" 0.0 * cfg.dist.prop
+              + getD hy.lens "beta_lambda" 0.0 * cfg.dist.propBeta,
+            getD hy.lens "lambda_ifu_sigma" 0.0) := by
+  simp [declared, lensDeclared, lambdaLens, lambdaSigma, h]
+
+/-- non-vacuity: an IFU-flagged lens with a truncated gamma_in population -/
+def exDist : LensDist ℝ :=
+  { prop := 0
+    propBeta := 0
+    lambdaSampling := true
+    mstIfu := true
+    gammaInSampling := true
+    gammaInGauss := true
+    gammaInMin := some 0
+    gammaInMax := some 2 }
+def exCfg : LensCfg ℝ := { ltype := .DdtGaussian, dist := exDist, aniso := {}, los := {} }
+def exHy : Hyper ℝ :=
+  { lens := [("lambda_ifu", 1), ("lambda_ifu_sigma", 1), ("lambda_mst_sigma", 3), ("gamma_in", 1), ("gamma_in_sigma", 1)] }
+
+/-- the declared populations of that IFU lens: lambda with the IFU spread 1 (not the sample-wide 3), gamma_in (1, 1),
+    log_m2l, slope and source populations at their defaults -/
+example : declared exCfg exHy = [(1, 1), (1, 1), (1, 0), (2, 0), (1, 0)] := by
+  simp [declared, lensDeclared, anisoDeclared, losDeclared, exCfg, exDist, exHy, lambdaLens, lambdaSigma, gammaInLoc,
+    m2lLoc, getD, Dict.get?, lit_zero, lit_one, lit_two]
+
+/-- the premise of `draws_from_declared` is met (here by the empty marginalisation; every evaluation of the
+    correspondence run meets it with N ≥ 1: the driver reports `.ok` together with the requests) -/
+example : hyperEvals (singlePre mkR exCfg exHy 1 1 0 none {} 5) false 0 { stream := [] } = .ok ([], { stream := [] }) := by
+  simp [hyperEvals, runDraws, pureM]
 
 /-! ### D. the estimator: unbiased, error ∝ 1/√N  (i.i.d. draws on an abstract probability space) -/
 section Estimator
